@@ -541,6 +541,9 @@ func (g *progGen) body(depth int, budget *int) []Stmt {
 		case x < 5 && depth < g.maxDepth:
 			g.nGroup++
 			gs := &GroupStmt{Prefix: fmt.Sprintf("/g%d", g.nGroup), MW: g.mws("G", g.maxMW)}
+			if g.bare && chance(g.r, 1, 6) {
+				gs.Prefix += ".v2" // a dot in the literal text in front of a route's first variable ("/api/v1.2/users/{id}")
+			}
 			var useFirst *UseStmt
 			if chance(g.r, 1, 4) {
 				// middleware handed over as a slice variable that other groups get as well
